@@ -291,7 +291,7 @@ impl Property for C11 {
                 v.label_if(values.windows(2).any(|w| w[0] == w[1]), "values:flat-section");
 
                 // dual node values are tagged per node date so that both supply orders describe the same curve
-                let tag = |t: i64| vec![format!("n{}", times.iter().position(|u| *u == t).unwrap())];
+                let tag = |t: i64| vec![format!("n{}", times.iter().position(|u| *u == t).map_or_else(|| format!("x{}", t), |p| p.to_string()))];
                 let mk_nodes = |ns: &[(i64, f64)]| match kind {
                     0 => Nodes::F64(IndexMap::from_iter(ns.iter().map(|(t, y)| (secs_to_ndt(*t), *y)))),
                     1 => Nodes::Dual(IndexMap::from_iter(ns.iter().map(|(t, y)| (secs_to_ndt(*t), Dual::new(*y, tag(*t)))))),
@@ -321,6 +321,31 @@ impl Property for C11 {
                         return v;
                     }
                 };
+                // a sibling curve: same node count, same first and last date, interior dates moved
+                // (same horizon and pillar count, other tenors). It is looked up alternately with the
+                // curve itself below - a look-up must not depend on which curve was queried before.
+                let sibling: Option<(AnyCurve, Vec<i64>, Vec<f64>)> = if n >= 3 {
+                    let mut st = times.clone();
+                    let mut moved = false;
+                    for i in 1..n - 1 {
+                        // move each interior date to the middle of the gap on the side that has room
+                        let (lo, hi) = (st[i - 1], times[i + 1]);
+                        let cand = if (i % 2 == 0 || times[i] - lo < 2) && hi - times[i] >= 2 { times[i] + (hi - times[i]) / 2 } else if times[i] - lo >= 2 { lo + (times[i] - lo) / 2 } else { times[i] };
+                        if cand != times[i] && cand > st[i - 1] && cand < times[i + 1] {
+                            st[i] = cand;
+                            moved = true;
+                        }
+                    }
+                    if moved {
+                        let pairs: Vec<(i64, f64)> = st.iter().cloned().zip(values.iter().cloned()).collect();
+                        catch(|| AnyCurve::new(rule, mk_nodes(&pairs), "sib", None)).ok().map(|c| (c, st, values.clone()))
+                    } else {
+                        None
+                    }
+                } else {
+                    None
+                };
+                v.label_if(sibling.is_some(), "sibling-curve:interleaved-look-ups");
                 if !curve.equals(&curve_sorted) {
                     v.fail("curves from shuffled and sorted node supply compare unequal", format!("{:?}", nodes));
                     return v;
@@ -332,6 +357,39 @@ impl Property for C11 {
                     v.label(pos);
                     let interior_node = times[1..n - 1].contains(x);
                     v.nt(n >= 3 && ((*x > times[1] && *x < times[n - 2] && !times.contains(x)) || interior_node));
+                    // the sibling first, then the curve itself (the other way round for odd dates)
+                    if let Some((sib, st, sv)) = &sibling {
+                        let ms = evaluate(rule, st, sv, *x);
+                        let order_first = *x % 2 == 0;
+                        let r = catch(|| {
+                            if order_first {
+                                let a = (sib.node_index(*x), f64::from(&sib.value(&date)));
+                                let b = curve.node_index(*x);
+                                (a, b)
+                            } else {
+                                let b = curve.node_index(*x);
+                                let a = (sib.node_index(*x), f64::from(&sib.value(&date)));
+                                (a, b)
+                            }
+                        });
+                        match r {
+                            Ok(((si, sval), ci)) => {
+                                let flat = matches!(rule, Rule::FlatForward | Rule::FlatBackward);
+                                let ok = si == ms.index && ci == m.index && if flat { sval.to_bits() == ms.value.to_bits() } else { close(sval, ms.value, 1e-12 * ms.cond, 0.0) };
+                                if !ok {
+                                    v.fail(
+                                        "a look-up depends on which curve was looked up before",
+                                        format!("{}: curve nodes {:?}, sibling nodes {:?}, query {}: sibling interval {} (expected {}), value {:e} (closed form {:e}); curve interval {} (expected {})", rule.name(), times, st, x, si, ms.index, sval, ms.value, ci, m.index),
+                                    );
+                                    return v;
+                                }
+                            }
+                            Err(p) => {
+                                v.fail(format!("look-up | panic | {}", p.site()), p.message);
+                                return v;
+                            }
+                        }
+                    }
                     let got = match catch(|| (curve.value(&date), curve_sorted.value(&date), hook.get(&date), curve.node_index(*x), hook.node_index(*x), index_left_i64(&times, *x))) {
                         Ok(g) => g,
                         Err(p) => {
@@ -389,7 +447,7 @@ impl Property for C11 {
     }
 
     fn rule(&self) -> String {
-        "random (rule, node set, query dates): 2-12 nodes with distinct timestamps, spacings from 1 second to ~6 years (mostly whole days), positive values (DF-like and general; a fifth of the curves repeat a value exactly on neighbouring nodes, some are all ones), supplied shuffled or sorted; 1-7 queries per curve drawn before the first node, after the last, exactly on nodes and 1 second either side, at interval midpoints and uniformly inside intervals. Every curve is built three ways (generic constructor with shuffled nodes, with sorted nodes - node values given as floats, first-order or second-order numbers tagged per node date - and the Python-facing constructor through the hook); the two generic curves must agree bit-for-bit and compare equal, the hook curve bit-for-bit for float values and to 1e-12 otherwise. Oracle: linear-scan interval choice and the closed form of each rule (1e-12; flat rules exact), node dates return node values, betweenness for linear/log-linear. Plus index_left on random strictly increasing float lists with probes at, between, just above and outside the entries. Non-trivial: >= 3 nodes and a query strictly inside an interior interval or exactly on an interior node (curves); lists of >= 3 entries (index_left).".into()
+        "random (rule, node set, query dates): 2-12 nodes with distinct timestamps, spacings from 1 second to ~6 years (mostly whole days), positive values (DF-like and general; a fifth of the curves repeat a value exactly on neighbouring nodes, some are all ones), supplied shuffled or sorted; 1-7 queries per curve drawn before the first node, after the last, exactly on nodes and 1 second either side, at interval midpoints and uniformly inside intervals. Every curve is built three ways (generic constructor with shuffled nodes, with sorted nodes - node values given as floats, first-order or second-order numbers tagged per node date - and the Python-facing constructor through the hook); the two generic curves must agree bit-for-bit and compare equal, the hook curve bit-for-bit for float values and to 1e-12 otherwise. A sibling curve (same node count, first and last date; interior dates moved) is looked up alternately with the curve itself. Oracle: linear-scan interval choice and the closed form of each rule (1e-12; flat rules exact), node dates return node values, betweenness for linear/log-linear. Plus index_left on random strictly increasing float lists with probes at, between, just above and outside the entries. Non-trivial: >= 3 nodes and a query strictly inside an interior interval or exactly on an interior node (curves); lists of >= 3 entries (index_left).".into()
     }
 
     fn floors(&self, tier: Tier) -> Vec<Floor> {
@@ -406,6 +464,7 @@ impl Property for C11 {
             Floor { label: "rule:linear_zero_rate", min: n / 10 },
             Floor { label: "values:first-order", min: n / 10 },
             Floor { label: "values:flat-section", min: n / 20 },
+            Floor { label: "sibling-curve:interleaved-look-ups", min: n / 5 },
             Floor { label: "values:second-order", min: n / 10 },
         ]
     }
